@@ -33,10 +33,13 @@ def main():
         res["confirmed"] = confirmed
         print(f"{pid}-{n}: demo clean={rc0} patched={rc1} tests={rct} -> {'confirmed' if confirmed else 'NOT confirmed'}", flush=True)
         if confirmed:
-            rc, out = sh([sys.executable, os.path.join(ROOT, "harness", "mutate.py"), patch, pid, *extra, "--seeds", "1,2,3"], cwd=ROOT)
-            last = out.strip().split("\n")[-1]
-            try: res["checks"] = json.loads(last)
-            except Exception: res["checks"] = {"error": out[-500:]}
+            if os.environ.get("SEED_STORE_ONLY"):
+                res["checks"] = {}          # checks are run afterwards by isomut.py (isolated, parallel)
+            else:
+                rc, out = sh([sys.executable, os.path.join(ROOT, "harness", "mutate.py"), patch, pid, *extra, "--seeds", "1,2,3"], cwd=ROOT)
+                last = out.strip().split("\n")[-1]
+                try: res["checks"] = json.loads(last)
+                except Exception: res["checks"] = {"error": out[-500:]}
             for k, v in res.get("checks", {}).items():
                 if isinstance(v, dict): print(f"   {k}: {'VIOLATION' if v['violation'] else 'pass'}{' (no-failing-input-found)' if v.get('no_failing_input') else ''} {v.get('what','')[:160]}")
             d = os.path.join(ROOT, "seeded", f"{pid}-{n+off}"); os.makedirs(d, exist_ok=True)
